@@ -84,6 +84,7 @@ fn encode8_stream(e: &'static Encoding, s: &str) -> Result<Vec<u8>, String> {
 
 fn emit(out: &mut Out, id: &str, e: &'static Encoding, units: &[u16]) {
     let lhs = format!("specenc {} {}", id, hex16(units));
+    trace_op(&lhs);
     let r16 = encode16(e, units);
     let (bytes, had) = match r16 {
         Ok(x) => x,
